@@ -22,6 +22,8 @@ type vConn struct {
 	delay     time.Duration // the scripted input only becomes readable this long after the first Read
 	deadline  time.Time
 	waited    bool
+	stallAt   int    // with onStall: the input pauses after this many bytes; onStall runs before the rest is served
+	onStall   func()
 }
 
 type vTimeoutErr struct{}
@@ -53,6 +55,17 @@ func (c *vConn) Read(p []byte) (int, error) {
 		return 0, io.EOF
 	}
 	n := len(c.in) - c.pos
+	if c.onStall != nil {
+		if c.pos < c.stallAt {
+			if n > c.stallAt-c.pos {
+				n = c.stallAt - c.pos
+			}
+		} else {
+			f := c.onStall
+			c.onStall = nil
+			f()
+		}
+	}
 	if n > len(p) {
 		n = len(p)
 	}
